@@ -105,6 +105,13 @@ pub struct TLife {
     /// verdict can be raised there; installation and per-call accounting are as everywhere else.
     #[serde(default)]
     pub in_teardown: bool,
+    /// after the calls, the SAME `fake!` line is evaluated and installed once more through the same
+    /// injector, on the other function of the same type (sites 0 and 1 only), and that function
+    /// receives this many matching calls: the new installation counts from zero although the
+    /// earlier one, still alive, has absorbed calls.  (What the two verifiers say at scope exit
+    /// about a counter they share is not judged.)
+    #[serde(default)]
+    pub again: Option<u8>,
 }
 
 #[derive(Serialize, Deserialize, Clone, Debug, Hash, PartialEq, Eq)]
@@ -159,6 +166,8 @@ pub struct TLifeObs {
     pub refake_outcomes: Vec<CallOut>,
     #[serde(default)]
     pub early_outcomes: Vec<CallOut>,
+    #[serde(default)]
+    pub again_outcomes: Vec<CallOut>,
     #[serde(default)]
     pub pre_value: Option<u64>,
     pub install_panic: Option<String>,
@@ -420,6 +429,33 @@ pub fn execute(c: &TimesCase) -> TimesObs {
                 }
             }
         }
+        if let (Some(k2), true) = (l.again, site <= 1) {
+            crate::worker::phase("same-line-again");
+            let r = std::panic::catch_unwind(std::panic::AssertUnwindSafe(|| {
+                ip::sut(|| {
+                    let p = build(site);
+                    if site == 0 {
+                        inj.when_called(injectorpp::func!(fn (tt_b)(u64) -> u64)).will_execute(p)
+                    } else {
+                        inj.when_called(injectorpp::func!(fn (tt_a)(u64) -> u64)).will_execute(p)
+                    }
+                })
+            }));
+            if r.is_err() {
+                lo.install_panic = Some(format!("same line again: {}", crate::worker::last_panic()));
+            } else {
+                let min = WHEN_MIN.load(SeqCst);
+                for i in 0..k2 as u64 {
+                    let arg = min + 300 + i;
+                    let mut out = CallOut { matching: true, arg, ..Default::default() };
+                    match std::panic::catch_unwind(|| if site == 0 { tt_b(arg) } else { tt_a(arg) }) {
+                        Ok(v) => out.value = Some(v),
+                        Err(_) => out.panic = Some(crate::worker::last_panic()),
+                    }
+                    lo.again_outcomes.push(out);
+                }
+            }
+        }
         crate::worker::phase("drop");
         let before = crate::worker::PANIC_COUNT.load(SeqCst);
         if l.exit_unwind {
@@ -471,8 +507,8 @@ pub fn execute(c: &TimesCase) -> TimesObs {
 pub fn strategy(c07_bias: bool) -> impl Strategy<Value = TimesCase> {
     let n = prop_oneof![6 => 0u16..=8, 1 => Just(64u16), 1 => Just(300u16)];
     let second = prop::option::weighted(if c07_bias { 0.05 } else { 0.3 }, (0u8..N_SITES, 0u8..4, 0u8..5));
-    let extras = (prop::bool::weighted(0.3), prop::option::weighted(if c07_bias { 0.1 } else { 0.3 }, (any::<bool>(), 0u8..4, 0u8..5, any::<bool>())), prop_oneof![4 => Just(0u8), 1 => 1u8..=2], prop::bool::weighted(if c07_bias { 0.25 } else { 0.12 }));
-    let life = (0u8..N_SITES, n, 0u16..=12, any::<u64>(), prop_oneof![2 => Just(1u8), 1 => 2u8..=16], prop::bool::weighted(0.2), 0u8..4, second, extras).prop_map(|(site, n, extra_sel, pattern, threads, exit_unwind, nonmatching, second, (pre_uncounted, refake, early, in_teardown))| {
+    let extras = (prop::bool::weighted(0.3), prop::option::weighted(if c07_bias { 0.1 } else { 0.3 }, (any::<bool>(), 0u8..4, 0u8..5, any::<bool>())), prop_oneof![4 => Just(0u8), 1 => 1u8..=2], prop::bool::weighted(if c07_bias { 0.25 } else { 0.12 }), prop::option::weighted(if c07_bias { 0.2 } else { 0.08 }, 0u8..6));
+    let life = (0u8..N_SITES, n, 0u16..=12, any::<u64>(), prop_oneof![2 => Just(1u8), 1 => 2u8..=16], prop::bool::weighted(0.2), 0u8..4, second, extras).prop_map(|(site, n, extra_sel, pattern, threads, exit_unwind, nonmatching, second, (pre_uncounted, refake, early, in_teardown, again))| {
         // half of the superseding counted fakes are exactly satisfied
         let refake = refake.map(|(counted, n2, k2, exact)| (counted, n2, if exact && counted { n2 } else { k2 }));
         // k in 0..=n+2 matching calls, j non-matching ones interleaved by `pattern`
@@ -484,7 +520,11 @@ pub fn strategy(c07_bias: bool) -> impl Strategy<Value = TimesCase> {
             let pos = ((pattern >> (x * 8)) as usize) % (calls.len() + 1);
             calls.insert(pos, false);
         }
-        TLife { site, n, calls, threads, exit_unwind, second, pre_uncounted, refake, early, in_teardown }
+        // (the same line twice in one lifetime: on its own, without the other extras, and with at
+        // most n+1 calls so that over-calls stay catchable inside tear-down code as well)
+        let again = again.map(|k2| k2.min(n.min(6) as u8 + 1));
+        let (second, refake, threads) = if again.is_some() { (None, None, 1) } else { (second, refake, threads) };
+        TLife { site, n, calls, threads, exit_unwind, second, pre_uncounted, refake, early, in_teardown, again }
     });
     let count = if c07_bias { 2usize..=8 } else { 1usize..=3 };
     (prop::collection::vec(life, count), 0u8..N_SITES, prop::bool::weighted(if c07_bias { 0.8 } else { 0.3 }), prop::bool::weighted(if c07_bias { 0.35 } else { 0.1 })).prop_map(|(mut lifetimes, site, same_site, prebuilt)| {
@@ -631,8 +671,28 @@ pub fn judge(rec: &mut Recorder, c: &TimesCase, ex: Exec, _hello: &Value) -> Res
             }
         }
         let third_unmet = k3n3.map(|(k3, n3)| k3 != n3).unwrap_or(false);
+        // the same line installed once more in this lifetime: counts from zero
+        let again = l.again.is_some() && site <= 1;
+        if again {
+            let k4 = lo.again_outcomes.len();
+            for (i, x) in lo.again_outcomes.iter().enumerate() {
+                if (i < n) != x.panic.is_none() {
+                    return rec.fail(&sig("admitted-count-wrong/same-line-installed-again-in-one-lifetime"), ctx(&format!("the same fake! line was installed a second time through the same injector (on the other function of that type) after the first installation had absorbed {} call(s); call #{} of {k4} to the new installation {} (times: {n}); every installation counts from zero", k.min(n), i + 1, if x.panic.is_none() { "returned although its budget was exhausted" } else { "panicked although its budget was not exhausted" })));
+                }
+                let want = if site == 0 { x.arg * 2 + 1 } else { x.arg + 7 };
+                if x.panic.is_none() && x.value != Some(want) {
+                    return rec.fail(&sig("admitted-call-wrong-result"), ctx(&format!("call a={} of the second installation of the line returned {:?}, the fake yields {want}", x.arg, x.value)));
+                }
+            }
+            rec.class(if k.min(n) >= 1 { "same-line-installed-again-in-one-lifetime/after-absorbed-calls" } else { "same-line-installed-again-in-one-lifetime" });
+        }
         // exit verdict
-        if l.in_teardown {
+        if again {
+            // (two live verifiers of one line read one counter: what they say is not judged)
+            if lo.panics_at_exit > 1 {
+                return rec.fail(&sig("more-than-one-panic-at-exit"), ctx(&format!("{} panics at scope exit", lo.panics_at_exit)));
+            }
+        } else if l.in_teardown {
             // the thread was unwinding already: no verdict is raised (that would be a double panic)
             let allowed = if l.exit_unwind { 1 } else { 0 };
             if lo.exit_panic.is_some() || lo.panics_at_exit != allowed {
@@ -685,7 +745,7 @@ pub fn judge(rec: &mut Recorder, c: &TimesCase, ex: Exec, _hello: &Value) -> Res
             rec.class(if second_unmet { "two-counted-fakes/second-unmet" } else { "two-counted-fakes/second-met" });
         }
         rec.class(&format!("site{site}/{}{}{}", if l.threads > 1 { "threads>=2" } else { "1-thread" }, if k > n { "/over-called" } else if k < n { "/under-called" } else { "/exact" }, if repeated_site { "/site-reused-after-calls" } else { "" }));
-        let nontrivial = if prop == "C07" { repeated_site } else { (k >= 1 && (k > n || !non.is_empty() || l.threads >= 2)) || l.second.is_some() || l.refake.is_some() };
+        let nontrivial = if prop == "C07" { repeated_site || (again && k.min(n) >= 1) } else { (k >= 1 && (k > n || !non.is_empty() || l.threads >= 2)) || l.second.is_some() || l.refake.is_some() };
         if nontrivial {
             rec.nontrivial(&(li, l, repeated_site));
         }
